@@ -269,11 +269,78 @@ def do_op(op, kept, scratch, n):
         os.makedirs(o, exist_ok=True)
         converters.flows_to_sheets(op["json"], o, "csv", bool(op.get("strip")), bool(op.get("numbered")))
         return {"files": read_dir(o)}
+    if k in HOST_OPS:
+        return host_op(op)
     raise ValueError("unknown op " + k)
 
 
 class Skip(Exception):
     pass
+
+
+# ------------------------------------------------------------------ host operations
+# What the HOST process may do between two calls of the toolkit, outside the rpft package: it puts process state the
+# caller controls (or that repeats by itself) into a REPEATED state.  None of them touches the operating system's
+# entropy (os.urandom), which is what uuid4() draws from.
+HOST_OPS = ("seed_rng", "rng_restore", "freeze_time", "thaw_time", "fix_pid")
+_REAL = {}
+_RNG_AT_START = None
+
+
+def host_op(op):
+    import datetime as dt
+    import random
+    import time
+
+    k = op["op"]
+    if k == "seed_rng":
+        random.seed(op["k"])                # random.seed(k) of an application, pytest-randomly, a simulation library
+        return {"host": f"random.seed({op['k']!r})"}
+    if k == "rng_restore":
+        random.setstate(_RNG_AT_START)      # random.setstate(saved): the state this process had when it started
+        return {"host": "random.setstate(<state at process start>)"}
+    if k == "freeze_time":
+        # freezegun / time-machine style: every clock of the standard library answers the same instant
+        t = float(op["t"])
+        if not _REAL:
+            _REAL.update({n: getattr(time, n) for n in ("time", "time_ns", "monotonic", "monotonic_ns", "perf_counter", "perf_counter_ns")})
+            _REAL["datetime"], _REAL["date"] = dt.datetime, dt.date
+        for n in ("time", "monotonic", "perf_counter"):
+            setattr(time, n, lambda t=t: t)
+        for n in ("time_ns", "monotonic_ns", "perf_counter_ns"):
+            setattr(time, n, lambda t=t: int(t * 10 ** 9))
+        real_dt, real_d = _REAL["datetime"], _REAL["date"]
+
+        class FrozenDateTime(real_dt):
+            @classmethod
+            def now(cls, tz=None):
+                return real_dt.fromtimestamp(t, tz)
+
+            @classmethod
+            def utcnow(cls):
+                return real_dt.utcfromtimestamp(t)
+
+            @classmethod
+            def today(cls):
+                return real_dt.fromtimestamp(t)
+
+        class FrozenDate(real_d):
+            @classmethod
+            def today(cls):
+                return real_d.fromtimestamp(t)
+
+        dt.datetime, dt.date = FrozenDateTime, FrozenDate
+        return {"host": f"clocks frozen at {t}"}
+    if k == "thaw_time":
+        if _REAL:
+            for n in ("time", "time_ns", "monotonic", "monotonic_ns", "perf_counter", "perf_counter_ns"):
+                setattr(time, n, _REAL[n])
+            dt.datetime, dt.date = _REAL["datetime"], _REAL["date"]
+        return {"host": "clocks thawed"}
+    if k == "fix_pid":
+        os.getpid = lambda p=int(op["pid"]): p      # a container: every start of the program has the same pid
+        return {"host": f"os.getpid() == {op['pid']}"}
+    raise ValueError("unknown host op " + k)
 
 
 def main():
@@ -291,6 +358,10 @@ def main():
     for m in job.get("preimport", []):
         importlib.import_module(m)
     logging.getLogger("rpft.rapidpro.models.routers").setLevel(logging.ERROR)
+    global _RNG_AT_START
+    import random
+
+    _RNG_AT_START = random.getstate()
     pristine = read_state(mods)
     again = read_state(mods)
     out = {"pristine_ok": pristine == again, "inventory": inventory(mods), "results": [],
